@@ -196,7 +196,7 @@ def run_w2(res, task):
     tier, seed = task[4], task[5]
     Ts = [None, 0.75, 1.0, 2.0, 3.25, 4.0, 6.0]
     for idx, nl in enumerate(W.w2_circuits(task)):
-        if tier == 'quick' and idx % 2 != seed % 2: continue
+        if tier == 'quick' and idx % 2 != seed % 2 and task[1] != 'wide': continue
         si = (idx // 2 if tier == 'quick' else idx) % len(STYLES)
         b = build(nl, STYLES[si])
         nlines = len(b.circuit.lines)
